@@ -319,12 +319,47 @@ fn types(f: &[String]) -> String {
                 let m: Vec<Type> = ts.iter().map(|t| Type::Mut(t.clone().into())).collect();
                 m.iter().filter(|x| !x.matches(&m[0])).count()
             };
+            // every static query is a function of the type's structure: the K parses (each with its own
+            // hash order) must give structurally equal answers (canon::ty sorts union members / fields)
+            let queries = |a: &Type| -> Vec<String> {
+                let o = |t: Option<Type>| t.map(|t| canon::ty(&t)).unwrap_or_else(|| "none".into());
+                let os = |t: Option<std::sync::Arc<[Type]>>| {
+                    t.map(|ts| ts.iter().map(canon::ty).collect::<Vec<_>>().join(","))
+                        .unwrap_or_else(|| "none".into())
+                };
+                vec![
+                    o(a.index_result()),
+                    o(a.element_type()),
+                    o(a.return_type()),
+                    os(a.params()),
+                    o(a.mut_element_type()),
+                    o(a.mut_assign_type()),
+                    os(a.clone().flatten_tuple()),
+                    o(a.iter_element()),
+                    o(a.tuple_element_at(0)),
+                    o(a.tuple_element_at(1)),
+                    o(a.field_type("a")),
+                    o(a.field_type("b")),
+                    format!("{:?}{:?}", a.tuple_len(), a.min_tuple_len()),
+                ]
+            };
+            let answers: Vec<Vec<String>> = ts.iter().map(queries).collect();
+            let names = [
+                "index_result", "element_type", "return_type", "params", "mut_element_type", "mut_assign_type",
+                "flatten_tuple", "iter_element", "tuple_element_at0", "tuple_element_at1", "field_type_a",
+                "field_type_b", "tuple_len",
+            ];
+            let varying: Vec<&str> = (0..names.len())
+                .filter(|i| answers.iter().any(|a| a[*i] != answers[0][*i]))
+                .map(|i| names[i])
+                .collect();
             format!(
-                "(det eq_fail={} match_fail={} set_size={} cell_fail={})",
+                "(det eq_fail={} match_fail={} set_size={} cell_fail={}{})",
                 eq_fail,
                 match_fail,
                 set.len(),
-                cell_fail
+                cell_fail,
+                if varying.is_empty() { String::new() } else { format!(" varying={}", varying.join(",")) }
             )
         }
         other => format!("(bad-type-op {other})"),
